@@ -20,13 +20,19 @@ PhiAtMax(theta, phi) == IF theta[1] < theta[Len(theta)] THEN phi[Len(phi)] ELSE 
 Segment(theta, t) == CHOOSE k \in 1..(Len(theta) - 1) :
    (theta[k] <= t /\ t <= theta[k + 1]) \/ (theta[k + 1] <= t /\ t <= theta[k])
 
+\* a missing data value is carried as the distinguished integer NaNv: the interpolant is missing strictly inside a
+\* segment with a missing end and takes the data value itself AT a point of the profile, whatever its neighbours hold
+NaNv == 2147483641
+PhiRat(v) == IF v = NaNv THEN NaN ELSE <<v, 1>>
 InterpAt(theta, phi, t, mask) ==
-  IF t < ThMin(theta) THEN (IF mask THEN NaN ELSE <<PhiAtMin(theta, phi), 1>>)
-  ELSE IF t > ThMax(theta) THEN (IF mask THEN NaN ELSE <<PhiAtMax(theta, phi), 1>>)
+  IF t < ThMin(theta) THEN (IF mask THEN NaN ELSE PhiRat(PhiAtMin(theta, phi)))
+  ELSE IF t > ThMax(theta) THEN (IF mask THEN NaN ELSE PhiRat(PhiAtMax(theta, phi)))
+  ELSE IF \E k \in DOMAIN theta : theta[k] = t THEN PhiRat(phi[CHOOSE k \in DOMAIN theta : theta[k] = t])
   ELSE LET k == Segment(theta, t)
            dt == theta[k + 1] - theta[k]
            num == phi[k] * dt + (phi[k + 1] - phi[k]) * (t - theta[k])
-       IN IF dt > 0 THEN <<num, dt>> ELSE <<-num, -dt>>
+       IN IF phi[k] = NaNv \/ phi[k + 1] = NaNv THEN NaN
+          ELSE IF dt > 0 THEN <<num, dt>> ELSE <<-num, -dt>>
 
 Rev(s) == [k \in DOMAIN s |-> s[Len(s) + 1 - k]]
 =============================================================================
